@@ -50,7 +50,7 @@ BAND = F(1, 2 ** 50)
 PARTIAL = [
     "convex hull: PROVED for every finite point list (duplicates and collinear points included): hull vertices are input points, pairwise distinct, every input point is left-of-or-on every edge of the closed hull polygon, and with >= 3 vertices all cyclically consecutive triples turn strictly left (convexHull_correct; Andrew's invariant of one scan: halfHull_invariant / ScanInv.step); not stated separately: minimality as 'no proper sub-polygon contains the points' (it follows from subset + strict convexity + distinctness)",
     "wn_poly: PROVED: counter >= 1 for a point strictly left of every edge of any closed polygon (wnNum_inside_ge_one), counter = 0 when a line separates the point from all vertices (wnNum_separated_zero), hence for a strictly convex ccw polygon and a point off the boundary wn_poly is True iff the point is strictly left of every edge (wnPoly_convex), also on the output of convex_hull (wnPoly_convexHull). the counter is exactly 1 / 0 there (wnNum_convex_value, wnNum_convexHull_interior). NOT proved: 'wn_poly = inside' for arbitrary simple (non-convex) polygons; it is checked against an independent crossing-number test by the oracle",
-    "findCtrlpts_exact (inside a span every returned control point has a non-zero basis function: strict positivity of A2.2) is not proved; proved: returned indices are span-p..span and every non-zero Cox-de Boor function has its index there (parameter in the half-open domain [U_p, U_n); the closed end u = U_n is covered by the oracle only)",
+    "find_ctrlpts: PROVED exact (findCtrlpts_exact / _surface_exact, list forms _exact_list): for a parameter of [U_p, U_n) strictly inside its span (e.g. not a knot) the returned control points are exactly those whose Cox-de Boor function is non-zero (strict positivity of A2.2: basisFuns_positive_inside); on a knot the exact zero pattern is proved (basisFuns_zero_pattern, findCtrlpts_active_at_any_parameter: the returned set is then a superset, the last m returned points of a knot of multiplicity m <= p have a vanishing function); closed right end u = U_n: last p+1 indices, left-limit functions characterised, end-clamped vector: only the last is non-zero, = 1 (findCtrlpts_right_end_*; needs the last span [U_{n-1}, U_n] non-empty). Not covered: volumes (find_ctrlpts has no volume branch), the object layer (which knot vector / ctrlpts2d the routine reads) is tied by correspondence only",
     "ray: the status / coincidence theorems assume the exact square root (m*m = |d1 x d2|^2) and compare squared distances; the effect of the rounded sqrt (points differ by rounding, hence the tolerance) is only observed by the correspondence / oracle",
     "voxelize: the model takes the bounding box and the evaluated points of the object as inputs (surface evaluation is C01, bounding box C18); termination of frange is proved under an explicit bound N with stop - start <= N*step + step/2 (and for Archimedean fields); the exact value list of frange for an arbitrary stop value is frange_values",
     "F-20a: generate_voxel_grid(use_cubes=True) on a flat bounding box does not terminate (voxelGrid_cubes_flat_refutes_termination); coverage theorems therefore assume the grid was returned",
@@ -811,7 +811,8 @@ def oracle(c):
         if ku[spu] < u < ku[spu + 1] and kvv[spv] < v < kvv[spv + 1]:
             if any(Nu[i] * Nv[j] == 0 for i in range(spu - pu, spu + 1) for j in range(spv - pv, spv + 1)):
                 return "a returned control point has a vanishing basis function inside the span"
-        return None
+        return (zero_pattern("find_ctrlpts(surface, u)", Nu, spu, pu, ku, u)
+                or zero_pattern("find_ctrlpts(surface, v)", Nv, spv, pv, kvv, v))
     return None
 
 
@@ -823,6 +824,18 @@ def check_active(name, got, want_pts, N, span, p, kv, u):
             return "%s: control point %d has a non-zero basis function but is not returned" % (name, i)
     if kv[span] < u < kv[span + 1] and any(N[i] == 0 for i in range(span - p, span + 1)):
         return "%s: a returned control point has a vanishing basis function inside the span" % name
+    return zero_pattern(name, N, span, p, kv, u)
+
+
+def zero_pattern(name, N, span, p, kv, u):
+    """exact zero pattern on the closed non-empty span (Lean: C20.basisFuns_zero_pattern /
+    findCtrlpts_active_closed_domain): N_i(u) != 0 iff (i = span-p or U_i < u) and (i = span or u < U_{i+p+1})"""
+    if not (kv[span] < kv[span + 1] and kv[span] <= u <= kv[span + 1]):
+        return None
+    for i in range(span - p, span + 1):
+        want = (i == span - p or kv[i] < u) and (i == span or u < kv[i + p + 1])
+        if (N[i] != 0) != want or N[i] < 0:
+            return "%s: basis function %d at %s does not follow the zero pattern of the span (value %s)" % (name, i, fr(u), fr(N[i]))
     return None
 
 
